@@ -22,7 +22,7 @@ import xarray as xr
 from dask.array import Array as Dask_Array
 
 from . import gridops, metadata_parsers
-from .axis import Axis
+from .axis import VALID_POSITION_NAMES, Axis
 from .grid_ufunc import (
     GridUFunc,
     _check_data_input,
@@ -741,9 +741,18 @@ class Grid:
             if to_pos is None:
                 to_pos = ax._default_shifts[from_pos]
 
-            # TODO build this more directly?
-            signature_1d = _GridUFuncSignature.from_string(
-                f"({ax_name}:{from_pos})->({ax_name}:{to_pos})"
+            # built directly, not by formatting and re-parsing a signature string: the axis
+            # name is the user's label (any string), and the target position must be one of
+            # the position words exactly as spelled
+            if to_pos not in VALID_POSITION_NAMES.split("|"):
+                raise ValueError(
+                    f"Axis position must be one of {VALID_POSITION_NAMES.split('|')}, but got {to_pos!r}"
+                )
+            signature_1d = _GridUFuncSignature(
+                in_ax_names=[(ax_name,)],
+                in_ax_positions=[(from_pos,)],
+                out_ax_names=[(ax_name,)],
+                out_ax_positions=[(to_pos,)],
             )
             signatures.append(signature_1d)
 
